@@ -212,6 +212,11 @@ def _prune_header(header, text):
     return " ".join(out)
 
 
+def _has_while(node, spec):
+    """a `while` that has to be translated (one the spec pins verbatim through stmt_map is a plain statement)"""
+    return any(isinstance(n, ast.While) and ast.unparse(n) not in spec.stmt_map for n in ast.walk(node))
+
+
 def _only_logging(stmts):
     """statements that only write log output (calls of logging.*, loops over such calls)"""
     for st in stmts:
@@ -267,7 +272,7 @@ class Translator:
         self.aux = []           # emitted auxiliary definitions (list of list of lines)
         self.nloop = 0
         self.dropped = []       # statements dropped (asserts, docstrings), recorded in the header
-        self.uses_fuel = any(isinstance(n, ast.While) for n in ast.walk(fn))
+        self.uses_fuel = _has_while(fn, spec)
         self.optional = self.uses_fuel or bool(spec.pop_map)
 
     # ------------------------------------------------------------------ expressions
@@ -691,7 +696,7 @@ class Translator:
             U("return together with assert-exit / raise in one for loop")
         if hasret:
             return self.for_loop_ret(s, rest, k, defined, aux, pat, pat_vars, it, ukey, elem_ty, state)
-        opt = any(isinstance(n, ast.While) for n in ast.walk(s)) or any(ast.unparse(n) in sp.pop_map for n in ast.walk(s) if isinstance(n, ast.stmt))
+        opt = _has_while(s, sp) or any(ast.unparse(n) in sp.pop_map for n in ast.walk(s) if isinstance(n, ast.stmt))
         if opt:
             U("while / stream draw nested in for")
         if not state and not exc:
@@ -736,7 +741,7 @@ class Translator:
         """a `for` whose body may `return e`: the auxiliary definition yields `Py.Flow.ret e` (leave the function with e)
         or `Py.Flow.next state` (the loop ran to its end or was left by `break`)"""
         sp = self.spec
-        opt = any(isinstance(n, ast.While) for n in ast.walk(s)) or any(ast.unparse(n) in sp.pop_map for n in ast.walk(s) if isinstance(n, ast.stmt))
+        opt = _has_while(s, sp) or any(ast.unparse(n) in sp.pop_map for n in ast.walk(s) if isinstance(n, ast.stmt))
         if opt:
             U("while / stream draw nested in for")
         rty = sp.types.get("return") or sp.result_type
